@@ -327,9 +327,8 @@ var _ = rand.IntN
 func TestVerifC08(t *testing.T) {
 	r := verifkit.Start(t, "C08", "main")
 	defer r.Finish()
-	r.SetRule("Two families, both checked against a sequential model (pair->seq per channel, id->location per node) and by a model-independent scan of the stored rows. (a) small histories: 60-110 random ops over 2-4 channels with a key space of 8-64 (sender, client msg no) pairs and 4-28 colliding message ids, appends in strict / server-allocated / trusted modes, follower applies, truncations, trims, lease reclaim, warm-state eviction and DB reopen; (b) saturation: 3000-20000 distinct pairs stored in one channel, then replays of primary-era / overflow-era / recent pairs, fresh pairs, in-batch duplicates and trusted applies followed by colliding appends, across reopen / eviction / reclaim barriers, then truncation of holders and re-acceptance. Non-trivial (a): an accepted pair whose duplicate was rejected after a reopen, eviction or reclaim; (b): >= 2000 stored pairs and such a rejection after reopen or eviction. Distinct by family, surface, which duplicate situations occurred and op-kind sequence.")
+	r.SetRule("Two families, both checked against a sequential model (pair->seq per channel, id->location per node) and by a model-independent scan of the stored rows. (a) small histories: 60-110 random ops over 2-4 channels with a key space of 8-64 (sender, client msg no) pairs and 4-28 colliding message ids, appends in strict / server-allocated / trusted modes, follower applies, truncations, trims, lease reclaim, warm-state eviction and DB reopen; (b) saturation: 3000-20000 distinct pairs stored in one channel, then replays of primary-era / overflow-era / recent pairs, fresh pairs, in-batch duplicates and trusted applies followed by colliding appends, across reopen / eviction / reclaim barriers, then truncation of holders and re-acceptance; (c) cancelled rebuild: 150-520 stored pairs, then per round a reopen / eviction / reclaim barrier, an identical counting run, the same barrier again and the FIRST validated append under a countdown context cancelled after N polls with N swept over the measured poll range (first key, middle and end of the filter rebuild, before and after it), followed on the same DB instance by live duplicates of late-scan-order and random keys (must be rejected) and fresh pairs (must be accepted). About one op in 10 of family (a) also runs under a countdown context. Non-trivial (a): an accepted pair whose duplicate was rejected after a reopen, eviction or reclaim; (b): >= 2000 stored pairs and such a rejection after reopen or eviction; (c): the countdown fired inside (or at the first key of) the rebuild window and all follow-ups behaved. Distinct by family, surface, which duplicate situations occurred and op-kind sequence.")
 	r.Assume("trusted-contiguous input never carries duplicates and server-allocated input carries allocator-fresh ids (documented caller contracts); only the pair check is expected in server-allocated mode")
-	r.Assume("typed ChannelLog surface: payloads are non-empty and TruncateFrom never cuts below the persisted RetainedMaxSeq (two C07 findings on that API, covered by C07's probe cases; irrelevant to uniqueness)")
 	base := t.TempDir()
 	idx := 0
 	nSmall := r.N(150, 1200)
@@ -352,6 +351,21 @@ func TestVerifC08(t *testing.T) {
 	for _, s := range sats {
 		if !r.Skip(idx) {
 			c08Saturation(r, idx, base, s.kind, s.pairs, s.replays)
+		}
+		idx++
+	} // cancellation as a fault: first validated append after a barrier under a countdown context
+	type can struct {
+		kind     int
+		barriers []string
+	}
+	cans := []can{{0, []string{"reopen"}}, {2, []string{"evict"}}, {0, []string{"evict", "reopen", "reclaim"}}, {2, []string{"reopen", "reclaim"}}}
+	if r.Thorough() {
+		cans = append(cans, cans...)
+		cans = append(cans, cans...)
+	}
+	for k, c := range cans {
+		if !r.Skip(idx) {
+			c08CancelledRebuild(r, idx, base, c.kind, c.barriers, r.N(150, 400)+60*(k%3), r.N(17, 34))
 		}
 		idx++
 	}
